@@ -296,6 +296,38 @@ func runC16(c *Ctx) {
 		c.obF("R16.1", aw, "copies-Comma-iff-nonzero", okS, "writer option Comma is copied when non-zero", "")
 	}
 
+	// the producer never writes a source's text to the output unparsed, and never streams an in-memory source: whatever
+	// the source kind, what reaches the writer went through the CSV reader and writer (malformed input yields the parser's
+	// error) — and for sources held in memory only after the WHOLE input has parsed (no partial output before the error)
+	{
+		out := fp.Params[0]
+		for _, ci := range allCalls(fp) {
+			cc := ci.Common()
+			if ifaceMethodCalled(cc) == "WriteTo" || strings.HasSuffix(calleeName(cc), ").WriteTo") {
+				_, a := callArgs(cc)
+				if len(a) == 1 {
+					if direct, _ := allOrigins(a[0], oIsValue(out)); direct {
+						c.obD("R16.4", ci, "source-text-never-copied-unparsed", false, "an io.WriterTo source writes into the pipe the CSV reader parses — never straight to the producer's output", "WriteTo is called on the output writer: malformed input is reported as success and copied verbatim")
+					}
+				}
+			}
+		}
+		for _, ci := range callsIn(fp, "rt.pipeCSV") {
+			_, a := callArgs(ci.Common())
+			if len(a) < 2 {
+				continue
+			}
+			inMem := false
+			for _, o := range originsOf(a[1]) {
+				if nr := asCall(o.V); nr != nil && calleeName(&nr.Call) == "encoding/csv.NewReader" {
+					if mem, _ := allOrigins(unboxed(nr.Call.Args[0]), oCall(-1, "bytes.NewBuffer", "bytes.NewBufferString", "bytes.NewReader", "strings.NewReader")); mem {
+						inMem = true
+					}
+				}
+			}
+			c.obI("R16.4", ci, "in-memory-source-written-only-when-parsed", !inMem, "a source held in memory ([]byte, string, a marshaler's output) is parsed completely before anything is written (bufferedCSV): a malformed input leaves the output untouched", "an in-memory source is streamed record by record (pipeCSV): records before the bad one have reached the writer when the parser's error is returned")
+		}
+	}
 	// R16.2 slice typestate and overwrite
 	for _, sc := range callsIn(fc, "(reflect.Value).SetCap") {
 		recv, _ := callArgs(sc.Common())
